@@ -1,5 +1,10 @@
 """C18 — connection URIs round-trip: parse(build(x)) = x and the same database is opened.
 
+extra parameters: connectionForURI(uri, **args) / uri + '?' + urlencode(args) through a private instance of the real
+ConnectionURIOpener whose schemes build a recorder: the args dict must come back exactly.
+several databases: groups of similarly named sqlite files opened through the real connectionForURI (the cache) in one
+process: every URI's connection must address its own file (marker table written with the stdlib sqlite3 module).
+
 correspondence: `urllib.parse.quote/unquote` as imported by dbconnection.py, `DBConnection.uri` (driverless
 instances of the real connection classes), `SQLiteConnection.uri`, `DBConnection._parseURI` on built URIs
 and on a hostile raw stream, `SQLiteConnection._connectionFromParams` — against the Lean driver `drv_c18`.
@@ -29,6 +34,8 @@ META = {
     'level_text': ('Theorems C18_unquote_quote (every string, every safe set without %), C18_sqlite_parse_build / '
                    'C18_sqlite_open_partial (every absolute file name and :memory:), C18_parse_build (every user, '
                    'password, db; host without URI delimiters, lower-case, IPv6 literals included; port absent/0 or 1..65535) and '
+                   'C18_params_roundtrip / C18_parse_build_params / C18_sqlite_parse_build_params (every list of extra parameters with '
+                   'distinct names and non-empty values appended as connectionForURI does parses back exactly), '
                    'C18_bad_port_rejected / C18_bad_port_built_rejected (every non-numeric, negative or > 65535 port) about a model whose literals, safe= '
                    'arguments and statement skeleton are regenerated from /repo on every run and whose urllib/_parseURI part '
                    'is compared with the real code on built and on hostile raw URIs.'),
@@ -36,7 +43,9 @@ META = {
                    'urllib.parse (quote, unquote, urlsplit/urlparse, parse_qsl, UTF-8 replace-decoding), tied by sampling. '
                    'FALSE-witness theorem: sqlite file "/:memory:".'),
     'rule': ('cases = generic component tuples (class, user, password, host, port, db), sqlite file names, raw URI '
-             'strings (generated, and single-character mutations of built URIs), port texts; distinct = distinct tuple / '
+             'strings (generated, and single-character mutations of built URIs), port texts, extra-parameter dicts (inline and keyword) on built '
+             'URIs through a private ConnectionURIOpener, groups of sqlite files whose names differ only by quoting / by a tail that spells a '
+             'query or fragment, opened with and without parameters through the real connectionForURI in shuffled orders with repeats; distinct = distinct tuple / '
              'string; non-trivial = contains a character outside the unreserved set or a port'),
     'trusted': ['model of CPython 3.12.1 urllib.parse.quote / unquote / urlsplit / urlparse / parse_qsl and of '
                 'bytes.decode("utf-8", "replace") (Model/Uri.lean), cross-checked against the interpreter on every case',
@@ -50,7 +59,11 @@ META = {
                     '0 and None are the same absent port, ports > 65535, negative or non-numeric must be rejected',
                     'a host is a DNS name / IPv4 address / IPv6 literal: hosts containing / ? # @ [ ] blanks or control characters, or a colon without being an IPv6 literal, are outside the property; '
                     'host case is not significant (urlparse lower-cases it)',
-                    'uri() reports no extra parameters (debug, cache, timeout …): the query part of a reported URI is always empty',
+                    'uri() reports no extra parameters (debug, cache, timeout …): the query part of a reported URI is always empty; '
+                    'extra parameters are those given to connectionForURI(uri, **args) or appended with urlencode; their values are non-empty '
+                    '(parse_qsl drops blank values) and their names distinct',
+                    'the per-URI cache of connectionForURI is not modelled in Lean: that every reported URI (with and without parameters) '
+                    'addresses its own file when several similarly named databases are opened in one process is checked by the oracle only',
                     'in-memory sqlite databases are private to a connection: for :memory: only the parsed file name is checked'],
     'exhaustive': False,
 }
@@ -517,6 +530,244 @@ def same_file_oracle(ctx, path, label):
     return uri
 
 
+
+# ---------------------------------------------------------------------------------------- extra parameters
+PARAM_NAMES = ['debug', 'cache', 'timeout', 'charset', 'driver', 'registry', 'a b', 'k&x', 'n=m', '%41', 'p+q', '\xe9', '#', '?x',
+               'a%20b', '%', ';', 'x y+z', '', 'sslmode', 'a%2Bb', '%26', 'k%3Dv']
+PARAM_VALUES = ['1', '0', '30', 'utf8', 'a+b', 'x&cache=0', '100%41', 'p%2Bq', 'a b', 'v=w', '%', '%zz', '\xe9中', '#f', '?q', ';', 'a%20b',
+                '+', '&', '=', '%26', '%3D', '%2520', ' ', 'x y+z&w=1%41', '\U0001f600', "'\"", '/path/to', 'reg+1&cache=0']
+
+
+def gen_params(rng, maxn=3):
+    out = {}
+    for _ in range(rng.choice([1, 1, 2, maxn])):
+        k = rng.choice(PARAM_NAMES) if rng.random() < 0.7 else rstr(rng, 4, pct=0.3)
+        v = rng.choice(PARAM_VALUES) if rng.random() < 0.7 else rstr(rng, 5, pct=0.3)
+        if k in ('uri', 'oldUri') or v == '' or has_surrogate(k) or has_surrogate(v):
+            continue
+        out[k] = v
+    return out
+
+
+def recording_opener():
+    """a private ConnectionURIOpener (the real class) whose schemes build a recorder instead of a driver
+    connection: connectionForURI's parameter appending, cache, dispatch, connectionFromURI and _parseURI all run"""
+    E = env()
+    if 'opener' in E:
+        return E['opener']
+    dbc = E['dbconnection']
+
+    class Rec(dbc.DBConnection):
+        seen_uris = []
+
+        def __init__(self, params):       # deliberately not DBConnection.__init__ (no registry, no atexit)
+            self.params = params
+
+        @classmethod
+        def connectionFromURI(cls, uri):
+            cls.seen_uris.append(uri)
+            return dbc.DBConnection.connectionFromURI.__func__(cls, uri)
+
+        @classmethod
+        def _connectionFromParams(cls, user, password, host, port, path, args):
+            return cls((user, password, host, port, path, dict(args)))
+
+        def close(self):
+            pass
+    op = dbc.ConnectionURIOpener()
+    op.registerConnection(list(E['classes']) + ['sqlite'], lambda: Rec)
+    E['opener'] = (op, Rec)
+    return E['opener']
+
+
+def open_with_params(uri, inline, kwargs):
+    """connectionForURI(uri [+ '?' + urlencode(inline)], **kwargs) on the private opener.
+    returns (recorded params tuple | None, error text | None, connection, uri handed to connectionFromURI)"""
+    op, Rec = recording_opener()
+    dbc = env()['dbconnection']
+    del Rec.seen_uris[:]
+    try:
+        u = uri
+        if inline:
+            u = uri + '?' + dbc.urlencode(inline)
+        c = op.connectionForURI(u, **kwargs)
+        return c.params, None, c, ((u, Rec.seen_uris[-1]) if Rec.seen_uris else None)
+    except Exception as e:
+        return None, exc(e), None, None
+
+
+def check_params_oracle(ctx, base_case, uri, want5, inline, kwargs):
+    """the extra parameters given to connectionForURI come back from _parseURI exactly, next to the components"""
+    got, err, conn, final_uri = open_with_params(uri, inline, kwargs)
+    want_args = dict(inline)
+    want_args.update(kwargs)
+    case = dict(base_case, opener_inline=inline, opener_kwargs=kwargs)
+    label = json.dumps([sorted(inline.items()), sorted(kwargs.items())], ensure_ascii=True)
+    if got is None:
+        ctx.oracle_fail('C18:params:raises:%s:%s' % (err, label),
+                        'connectionForURI(%s, inline %r, **%r) raises %s' % (short(uri, 100), inline, kwargs, err), case)
+        return None
+    if tuple(got[:5]) != tuple(want5) or got[5] != want_args:
+        ctx.oracle_fail('C18:params:%s' % label,
+                        'connectionForURI(%s + inline parameters %r, **%r): _parseURI gives components %r and parameters %r, '
+                        'expected %r and %r' % (short(uri, 100), inline, kwargs, tuple(got[:5]), got[5], tuple(want5), want_args), case)
+        return final_uri
+    again, err2, conn2, _ = open_with_params(uri, inline, kwargs)
+    if conn2 is not conn:
+        ctx.oracle_fail('C18:params:cache:%s' % label, 'the same URI and parameters opened twice give two connections', case)
+    return final_uri
+
+
+def curi_lines(uri, inline, kwargs, uris):
+    """model requests for the two URI extensions (hand-written '?'+urlencode, then connectionForURI's own)"""
+    mid, final = uris
+    out = []
+
+    def kv(d):
+        return ' '.join('%s %s' % (enc(k), enc(v)) for k, v in d.items())
+    if inline:
+        out.append(('curi %s %s' % (enc(uri), kv(inline)), 'ok ' + enc(mid)))
+    if kwargs:
+        out.append(('curi %s %s' % (enc(mid), kv(kwargs)), 'ok ' + enc(final)))
+    return out
+
+
+def clear_opener():
+    op, Rec = recording_opener()
+    op.cachedURIs.clear()
+
+
+# ---------------------------------------------------------------------------------------- several databases, one process
+SQLITE_PARAM_SETS = [{}, {}, {'timeout': '30'}, {'timeout': '5'}, {'cache': '0'}, {'timeout': '30', 'cache': '0'}, {'use_table_info': '0'}]
+TWIN_SEPS = ['?', '#', '%3F', '%23', '%20', ' ', '%25', '+', '&', '%2520', '%253F', ';', '%', '=']
+TWIN_TAILS = ['timeout=30', 'cache=0', 'timeout=30&cache=0', 'timeout=5', 'b', 'x', 'use_table_info=0', 'timeout%3D30']
+
+
+def gen_multi_open(rng):
+    """entries (file name, parameters, 'kwargs'|'inline'): names that differ only by quoting / by a tail that looks like
+    a query or a fragment, each opened with and without parameters, in a random order with repeats"""
+    from urllib.parse import quote as q, unquote as uq
+    base = rng.choice(['data', 'a', 'my db', 'x.db', '\xe9', 'q%41', '100%'])
+    names = [base]
+    for _ in range(rng.choice([2, 3, 4])):
+        names.append(base + rng.choice(TWIN_SEPS) + rng.choice(TWIN_TAILS))
+    from urllib.parse import urlencode as ue
+    twin_params = [dict(rng.choice(SQLITE_PARAM_SETS[2:])) for _ in range(2)]
+    for tp in twin_params:      # a file whose NAME spells the base name's URI with these parameters
+        names.append(base + rng.choice(['?', '?', '#', '&']) + ue(tp))
+    if base.swapcase() != base:
+        names.append(base.swapcase())
+    for n in list(names):
+        r = rng.random()
+        if r < 0.3:
+            names.append(uq(n))
+        elif r < 0.6:
+            names.append(q(n, safe=''))
+    names = [n for n in dict.fromkeys(names) if n and '/' not in n and '\x00' not in n and n not in ('.', '..')
+             and len(n.encode('utf-8')) < 150]
+    entries = []
+    for n in names:
+        entries.append((n, {}, 'kwargs'))
+        for _ in range(rng.choice([0, 1, 2])):
+            entries.append((n, dict(rng.choice(SQLITE_PARAM_SETS)), rng.choice(['kwargs', 'inline'])))
+    # parameters that make the base name's URI spell like a tailed name
+    for tp in twin_params:
+        entries.append((base, tp, rng.choice(['kwargs', 'inline'])))
+    rng.shuffle(entries)
+    entries += [entries[rng.randint(0, len(entries) - 1)] for _ in range(3)]      # repeated opens
+    return [[n, p, h] for n, p, h in entries]
+
+
+def run_multi_open(entries):
+    """open the entries in order through the real connectionForURI in a fresh directory;
+    returns a list of (index, problem text)"""
+    import sqlite3
+    E = env()
+    dbc = E['dbconnection']
+    problems = []
+    opened = []
+    before = set(dbc.TheURIOpener.cachedURIs)
+    with Scratch() as sc:
+        paths = {}
+        for n, _, _ in entries:
+            if n not in paths:
+                paths[n] = os.path.join(sc.dir, n)
+                raw = sqlite3.connect(paths[n])
+                raw.execute('CREATE TABLE c18_marker (v TEXT)')
+                raw.execute('INSERT INTO c18_marker VALUES (?)', (n,))
+                raw.commit()
+                raw.close()
+        first = {}
+        try:
+            for i, (n, params, how) in enumerate(entries):
+                uri, err = real_suri(paths[n])
+                if uri is None:
+                    problems.append((i, 'uri() raises %s' % err))
+                    continue
+                try:
+                    if how == 'inline' and params:
+                        conn = dbc.connectionForURI(uri + '?' + dbc.urlencode(params))
+                    else:
+                        conn = dbc.connectionForURI(uri, **params)
+                except Exception as e:
+                    problems.append((i, 'connectionForURI raises %s: %s' % (exc(e), e)))
+                    continue
+                opened.append(conn)
+                ident = (n, tuple(sorted(params.items())))
+                if conn.filename != paths[n]:
+                    problems.append((i, 'the URI of file %s (parameters %r) gives a connection to file %s'
+                                     % (short(n), params, short(os.path.basename(conn.filename)))))
+                    continue
+                try:
+                    rows = [tuple(r) for r in conn.queryAll('SELECT v FROM c18_marker')]
+                except Exception as e:
+                    rows = exc(e)
+                if rows != [(n,)]:
+                    problems.append((i, 'the URI of file %s (parameters %r) gives a database holding %r' % (short(n), params, rows)))
+                    continue
+                if 'timeout' in params and conn._connOptions.get('timeout') != float(params['timeout']):
+                    problems.append((i, 'file %s: parameter timeout=%s not in effect (%r)'
+                                     % (short(n), params['timeout'], conn._connOptions.get('timeout'))))
+                if ('cache' in params) != (not conn.doCache):
+                    problems.append((i, 'file %s: parameters %r but doCache=%r' % (short(n), params, conn.doCache)))
+                if ident in first and first[ident] is not conn:
+                    problems.append((i, 'file %s with parameters %r opened twice gives two connections' % (short(n), params)))
+                first.setdefault(ident, conn)
+        finally:
+            for c in opened:
+                try:
+                    c.close()
+                except Exception:
+                    pass
+            for k in set(dbc.TheURIOpener.cachedURIs) - before:
+                dbc.TheURIOpener.cachedURIs.pop(k, None)
+    return problems
+
+
+def multi_open_oracle(ctx, entries):
+    problems = run_multi_open(entries)
+    if not problems:
+        return True
+    i, what = problems[0]
+    # minimise: the failing entry alone, then together with one earlier entry
+    small = None
+    if run_multi_open([entries[i]]):
+        small = [entries[i]]
+    else:
+        for j in range(i):
+            if run_multi_open([entries[j], entries[i]]):
+                small = [entries[j], entries[i]]
+                break
+    if small is not None:
+        what = run_multi_open(small)[0][1]
+    else:
+        small = entries[:i + 1]
+    ctx.oracle_fail('C18:sqlite:multi-open:%s' % json.dumps(small, ensure_ascii=True, sort_keys=True),
+                    'databases opened in this order through connectionForURI %s: %s'
+                    % (json.dumps(small, ensure_ascii=True), what), {'multi_open': small})
+    return False
+
+
 # ---------------------------------------------------------------------------------------- run
 def load_corpus():
     path = os.path.join(HERE, 'corpus', 'C18', 'cases.json')
@@ -595,6 +846,22 @@ def run(ctx):
         if uri is not None:
             built.append(uri)
             parse_and_compare('_parseURI on built URIs: model = DBConnection._parseURI', uri, {'uri': short(uri, 200)})
+            if kind.startswith('ok-') and rng.random() < 0.3:
+                # the same URI with extra parameters (connectionForURI(uri, **kw) / '?k=v' written by hand with urlencode)
+                t0 = real_parse(uri)[1]
+                pr = gen_params(rng)
+                inline = {}
+                if rng.random() < 0.35:
+                    inline = {k: v for k, v in gen_params(rng, 2).items() if k not in pr}
+                if pr or inline:
+                    fu = check_params_oracle(ctx, case, uri, t0[:5], inline, pr)
+                    ctx.case(('gp', uri, tuple(sorted(pr.items())), tuple(sorted(inline.items()))), nontrivial=True,
+                             kind='generic:with-parameters')
+                    if fu is not None:
+                        parse_and_compare('_parseURI on built URIs: model = DBConnection._parseURI', fu[1], {'uri': short(fu[1], 200)})
+                        for line, impl in curi_lines(uri, inline, pr, fu):
+                            add('connectionForURI parameters: model URI = URI handed to connectionFromURI',
+                                {'uri': short(uri, 120), 'inline': inline, 'kwargs': pr}, line, impl)
         for comp, safe in ((case['user'], ''), (case['pw'], ''), (case['db'], '/')):
             if comp and rng.random() < 0.25:
                 add('quote: model = urllib quote', {'s': short(comp), 'safe': safe},
@@ -629,6 +896,16 @@ def run(ctx):
                     else:
                         ctx.oracle_fail('C18:sqlite:open:%s' % ascii(fn), what, {'sqlite_filename': fn})
                     kind += ':fail'
+            if in_domain and not kind.endswith(':fail') and rng.random() < 0.3:
+                pr = gen_params(rng)
+                if pr:
+                    fu = check_params_oracle(ctx, {'sqlite_filename': fn}, uri, t[:5], {}, pr)
+                    ctx.case(('sp', fn, tuple(sorted(pr.items()))), nontrivial=True, kind='sqlite:with-parameters')
+                    if fu is not None:
+                        parse_and_compare('_parseURI on built URIs: model = DBConnection._parseURI', fu[1], {'uri': short(fu[1], 200)})
+                        for line, impl in curi_lines(uri, {}, pr, fu):
+                            add('connectionForURI parameters: model URI = URI handed to connectionFromURI',
+                                {'uri': short(uri, 120), 'kwargs': pr}, line, impl)
         elif in_domain:
             ctx.oracle_fail('C18:sqlite:build-raises:%s' % ascii(fn), 'SQLiteConnection.uri() raises %s for %s' % (err, short(fn)),
                             {'sqlite_filename': fn})
@@ -653,6 +930,14 @@ def run(ctx):
             ctx.case(('f', nm), nontrivial=True, kind='sqlite:real-file')
             if uri is not None:
                 add('sqlite uri(): model = SQLiteConnection.uri', {'file': short(nm)}, 'suri ' + enc(path), 'ok ' + enc(uri))
+
+    clear_opener()
+
+    # ---- several databases in one process: each URI's connection addresses its own file -------
+    groups = [g for g in corpus.get('multi_open', [])] + [gen_multi_open(rng) for _ in range(ctx.budget(25, 600))]
+    for g in groups:
+        ok = multi_open_oracle(ctx, g)
+        ctx.case(('m', json.dumps(g, sort_keys=True)), nontrivial=True, kind='sqlite:multi-open' + ('' if ok else ':fail'))
 
     # ---- ports: non-numeric / out of range must be rejected ------------------------------------
     port_cases = list(corpus.get('ports', [])) + PORT_TEXTS + [str(rng.randint(0, 140000)) for _ in range(ctx.budget(300, 5000))] \
@@ -725,6 +1010,21 @@ def replay(case):
             self.fails.append((key, what))
     c = C()
     C.fails = []
+    if 'multi_open' in case:
+        pr = run_multi_open(case['multi_open'])
+        return not pr, 'opened in this order: %s\n%s' % (json.dumps(case['multi_open'], ensure_ascii=True),
+                                                          '\n'.join(w for _, w in pr) or 'every URI addressed its own file')
+    if 'opener_kwargs' in case:
+        if 'sqlite_filename' in case:
+            uri, err = real_suri(case['sqlite_filename'])
+        else:
+            gc = {k: case[k] for k in ('scheme', 'user', 'pw', 'host', 'port', 'db')}
+            uri, err = real_guri(gc)
+        t0 = real_parse(uri)[1]
+        clear_opener()
+        check_params_oracle(c, {}, uri, t0[:5], case['opener_inline'], case['opener_kwargs'])
+        return not c.fails, 'reported URI: %r\ninline parameters %r, keyword parameters %r\n%s' % (
+            uri, case['opener_inline'], case['opener_kwargs'], '\n'.join(w for _, w in c.fails) or 'parameters came back exactly')
     if 'sqlite_filename' in case:
         fn = case['sqlite_filename']
         uri, err = real_suri(fn)
